@@ -36,6 +36,7 @@ ASSUMPTIONS = ["stored lane layout: bit 0 of a lane's stored word is the overall
                "word the corrected counter must move by 1..(number of lanes hit)",
                "a granularity error is 'reported' when we_errors moves at least once while that write's data is presented on port_from.wdata",
                "writes touching a lane partially may overwrite the whole lane (documented limitation): the not-enabled bytes of such a lane are unspecified on read-back",
+               "a lane's code word is the low n+1 bits of its stored lane (n from litex compute_m_n); the remaining stored bits are unused padding whose flips must leave the read clean",
                "port widths are multiples of 8 bits (native ports have byte enables); lane data widths 8/16/32/64",
                "memory-side stub envelope = lib.native.NativeSlave (wdata.ready >= 3, rdata.valid >= 5 cycles after acceptance, pulses regardless of valid/ready)",
                "violations are confirmed on stock migen.sim before being reported; fastsim alone never produces a verdict",
@@ -347,7 +348,22 @@ def hx(v):
     return hex(v)
 
 
+COUNT_CLAUSES = {"C15.clean_counter", "C15.single_ded", "C15.single_sec_count", "C15.double_not_ded", "C15.double_sec", "C15.counter_spurious"}
+
+
 def oracle(case, obs, part, book=None):
+    """The statement does not say in which cycle an event is counted: the counters are first read one cycle after the read data
+    is valid on the memory port (what this tree does); if that shows a counting finding the evaluation is repeated assuming one
+    more cycle of latency for every read of the case, and that verdict is taken if it has no counting finding."""
+    fs, recs = _oracle(case, obs, part, book, 1)
+    if any(f["clause"] in COUNT_CLAUSES or f["clause"] == "C15.be_readback" for f in fs):
+        fs2, recs2 = _oracle(case, obs, part, None, 2)
+        if not any(f["clause"] in COUNT_CLAUSES or f["clause"] == "C15.be_readback" for f in fs2):
+            return fs2 + [f for f in fs if f["clause"] == "C15.code_distance"], recs2
+    return fs, recs
+
+
+def _oracle(case, obs, part, book, lat):
     """returns (findings, records); records = one dict per evaluated read / byte-enable write for the collector"""
     cfg = case["cfg"]
     k, bc, wto = cfg
@@ -435,7 +451,7 @@ def oracle(case, obs, part, book=None):
                       "write we=%s (%s): memory-side enables %s do not cover the bytes %s holding the stored code words of the enabled lanes (missing %s)"
                       % (hx(be), bcl, hx(weW), hx(need), hx(need & ~weW)), rep)
                 if is_be:
-                    recs.append(dict(kind="be", obj=[cfg, "be", be, data], cls="be " + bcl, nontrivial=bcl not in ("full", "none"), errs=errs,
+                    recs.append(dict(kind="be", obj=[cfg, "be", be, data], cls="be %s, we_errors %s" % (bcl, "moved" if errs else "did not move"), nontrivial=bcl not in ("full", "none"), errs=errs,
                                      sample=dict(cfg=ck, we=hx(be), data=hx(data), we_errors_moved=errs, mem_we=hx(weW))))
                 # ---- code book (stored code words seen at the memory side), only for uncorrupted full writes
                 if book is not None and be == fbe and injm == 0:
@@ -477,9 +493,9 @@ def oracle(case, obs, part, book=None):
                         npar += 1
                     else:
                         nsingle += 1
-            dsec = tr[tR + 1][0] - tr[tR][0]
-            dded = tr[tR + 1][1] - tr[tR][1]
-            attributed.add(tR)
+            dsec = tr[tR + lat][0] - tr[tR + lat - 1][0]
+            dded = tr[tR + lat][1] - tr[tR + lat - 1][1]
+            attributed.add(tR + lat - 1)
             want = 0
             for b in range(nb_from):
                 want |= (cur[b] or 0) << (8 * b)
